@@ -20,7 +20,7 @@ def rendezvous_case(args):
     sp = t3.Spec(maxtasks=mx, bufsize=rng.choice([1, 128]))
     sp.proc(t3.Proc("rdv", kind="write", pars=[("q", ("V", ["v%d" % j for j in range(k)]))], outs=[("o", "rdv.{p:q}.txt")], cores=c, pre=RDV % k))
     ys = (rng.randint(1, 10**6), 2000) if rng.random() < 0.6 else None
-    r = t3.success_case(sp, yield_seed=ys, timeout=60)
+    r = t3.success_case(sp, yield_seed=ys, timeout=60, replays=("slots",))
     r["probs2"] = [("not-simultaneous", "%d tasks of %d cores fit into %d slots but did not all execute at the same time (rendezvous timed out): %s" % (k, c, mx, r["stderr"][-120:]))] if r["rc"] != 0 else []
     r["problems"] = r["probs2"] or r["problems"]
     r["kind"] = "rendezvous"
@@ -40,7 +40,7 @@ def wake_all_case(args):
     rdv = RDV.replace("{p:q}", "{i:a|basename}") % k
     sp.proc(t3.Proc("small", kind="cat", ins=[("a", [(g, "o")])], outs=[("o", "{i:a}.small")], cores=1, pre=rdv))
     ys = (rng.randint(1, 10**6), 500) if rng.random() < 0.5 else None
-    r = t3.success_case(sp, yield_seed=ys, timeout=60)
+    r = t3.success_case(sp, yield_seed=ys, timeout=60, replays=("slots",))
     if r["rc"] != 0:
         r["problems"] = [("not-simultaneous", "after a %d-core task released its slots, the %d waiting 1-core tasks did not all run at the same time (rendezvous timed out): %s" % (k, k, r["stderr"][-150:]))]
     r["kind"] = "wake-all"
@@ -54,7 +54,7 @@ def mixed_case(args):
     sp, cores, mx = c06.build(rng)
     for p in sp.procs():
         p.sleep = "sleep 0.01"
-    r = t3.success_case(sp, yield_seed=(rng.randint(1, 10**6), rng.choice([500, 3000])), timeout=90)
+    r = t3.success_case(sp, yield_seed=(rng.randint(1, 10**6), rng.choice([500, 3000])), timeout=90, replays=("slots",))
     r["kind"] = "mixed"
     return r
 
